@@ -541,6 +541,67 @@ class Roles:
         h = t[0]
         if is_call(t, name="jax.numpy.log") and len(t[2]) == 1:
             return self.of(t[2][0])
+        # ---- probability-domain detour: exp(log-quantity - shift), contracted with a probability matrix, then log
+        if h == "const" and isinstance(t[1], (int, float)) and not isinstance(t[1], bool):
+            return ()
+        if is_call(t, name="jax.numpy.exp") and len(t[2]) == 1:
+            a = t[2][0]
+            r = self.of(a)
+            if r is None:
+                return None
+            shift = self.of(a[3]) if (a[0] == "binop" and a[1] == "-") else None
+            if not hasattr(self, "exp_sites"):
+                self.exp_sites = []
+            self.exp_sites.append({"term": t, "roles": r, "shift": shift, "contracted_with": None})
+            return r
+        if is_call(t) and t[1][0] == "name" and t[1][1] in ("jax.numpy.max", "jax.numpy.min", "jax.numpy.amax", "jax.numpy.sum") and len(t[2]) == 1:
+            r = self.of(t[2][0])
+            if r is None:
+                return None
+            ax = dict(t[3]).get("axis")
+            keep = dict(t[3]).get("keepdims")
+            if ax is None:
+                return ()
+            if ax[0] == "const" and isinstance(ax[1], int) and r:
+                i = ax[1] % len(r)
+                if t[1][1].endswith("sum"):
+                    self.reduced = r[i]
+                    for e in getattr(self, "exp_sites", []):
+                        if any(x == e["term"] for x in subterms(t[2][0])) and e["contracted_with"] is None:
+                            e["contracted_with"] = tuple(x for j, x in enumerate(r) if j != i)
+                if keep is not None and is_const(keep, True):
+                    return r[:i] + ("1",) + r[i + 1:]
+                return r[:i] + r[i + 1:]
+            return None
+        if is_call(t) and t[1][0] == "name" and t[1][1] in ("jax.numpy.isfinite", "jax.numpy.isinf", "jax.numpy.isnan", "jax.lax.stop_gradient") and len(t[2]) == 1:
+            return self.of(t[2][0])
+        if is_call(t) and t[1][0] == "name" and t[1][1] in ("jax.numpy.where", "jax.lax.select") and len(t[2]) == 3:
+            rs = [self.of(x) for x in t[2]]
+            if any(x is None for x in rs):
+                return None
+            return max(rs, key=len)
+        mat = None
+        if h == "binop" and t[1] == "@":
+            mat = (t[2], t[3])
+        elif is_call(t) and t[1][0] == "name" and t[1][1] in ("jax.numpy.matmul", "jax.numpy.dot") and len(t[2]) == 2:
+            mat = (t[2][0], t[2][1])
+        if mat is not None:
+            a, b = self.of(mat[0]), self.of(mat[1])
+            if a is None or b is None or not a or not b:
+                return None
+            # contraction of a's last axis with b's first (vector @ matrix, matrix @ vector, matrix @ matrix)
+            ca, cb = a[-1], (b[0] if len(b) == 1 else b[-2])
+            u = self.unify(ca, cb, t)
+            if u is None:
+                self.problems.append(f"axis role mismatch: the product contracts a {ca}-state axis with a {cb}-state axis in {short(t, self.ev, 160)}")
+                u = ca
+            self.reduced = u if u != "state" else (cb if cb != "state" else ca)
+            rest_b = b[1:] if len(b) == 1 else b[:-2] + b[-1:]
+            out = a[:-1] + rest_b
+            for e in getattr(self, "exp_sites", []):
+                if e["contracted_with"] is None and (any(x == e["term"] for x in subterms(mat[0])) or any(x == e["term"] for x in subterms(mat[1]))):
+                    e["contracted_with"] = out
+            return out
         if h == "binop" and t[1] in "+-":
             a, b = self.of(t[2]), self.of(t[3])
             if a is None or b is None:
@@ -633,6 +694,17 @@ def hmm_rules(ctx, rule="ROLE-hmm-axes"):
         raise AnalysisError(f"forward_filter: step expression not typable: {short(step, ev, 200)}")
     if r != ("to",):
         problems.append(f"the new filter vector must be indexed by the to-state (found axes {r}): the sum must eliminate the from-state axis")
+    # numerical clause (value-range argument): a log → exp → Σ_from → log round trip is exact only if the shift subtracted before exp is
+    # taken per destination (carries the to-state axis): with one global shift, exp(alpha_i − max alpha) underflows to exactly 0 for a
+    # state more than ~87 nats (float32) behind the leader; a destination reachable only from such a state (structural zeros in the
+    # transition matrix: identity, block-diagonal, left-to-right models) gets −inf although its exact log-mass is finite.
+    for e in getattr(R_, "exp_sites", []):
+        cw = e["contracted_with"]
+        if cw is not None and "to" in cw and not (e["shift"] is not None and "to" in e["shift"]) and "to" not in e["roles"]:
+            problems.append("the prediction step leaves the log domain with a shift that does not depend on the destination state "
+                            f"({short(e['term'], ev, 120)} contracted over the from-state): entries more than ~87 nats below the global maximum underflow to 0, so a "
+                            "destination reachable only from a far-behind state (transition matrix with structural zeros) gets -inf — the per-destination "
+                            "logsumexp(prev_alpha[:, None] + log T, axis=0) keeps its exact log-mass")
     if getattr(R_, "reduced", None) not in ("from",):
         problems.append(f"logsumexp reduces the {getattr(R_, 'reduced', None)}-state axis; the prediction step sums over the previous (from) state")
     # emission indexed [:, y_t] with the scanned time index
